@@ -1191,11 +1191,10 @@ class RTCSctpTransport(AsyncIOEventEmitter):
                 self._advertised_rwnd += len(message[2])
                 await self._receive(*message)
 
-        # prune obsolete chunks
+        # prune fragments of the messages the peer has abandoned; chunks received
+        # beyond the forwarded TSN belong to messages which can still complete
         for stream_id, inbound_stream in self._inbound_streams.items():
-            self._advertised_rwnd += inbound_stream.prune_chunks(
-                self._last_received_tsn
-            )
+            self._advertised_rwnd += inbound_stream.prune_chunks(chunk.cumulative_tsn)
 
     async def _receive_sack_chunk(self, chunk: SackChunk) -> None:
         """
